@@ -311,7 +311,14 @@ C02_CLAUSES = {"ArgNames", "ArgTypes", "ReturnAbsentOnException", "ReturnPresent
 
 def scenario_signature(rec, sc, clause):
     ops = {h["op"] for h in sc["hist"]}
-    sig = {"clause": clause, "has_throw": "Throw" in ops, "has_drop": "Drop" in ops}
+    # the recorded throw() finding is about SUSPENDED generators: a throw into a generator that was never started does not count
+    started, susp_throw = set(), False
+    for h in sc["hist"]:
+        if h["op"] == "Throw" and h["id"] in started:
+            susp_throw = True
+        if h["op"] in ("Resume", "Delegate"):
+            started.update(h.get("ch") or [h["id"]])
+    sig = {"clause": clause, "has_throw": susp_throw, "has_drop": "Drop" in ops}
     if sc["rate"] > 1:
         first, late = {}, False
         for h in sc["hist"]:
